@@ -1,18 +1,107 @@
-(** Property C03 — statements only. Each theorem is closed by [exact] of a lemma
-    proved elsewhere and followed by [Print Assumptions]. *)
-From CR Require Import Base Atomic Machine LinksFacts HeapFacts TraceFacts Local.
+(** Property C03 — an orphaned adopted group is destroyed by the drop that orphans it. *)
+From Coq Require Import Permutation.
+From CR Require Import Base Atomic Machine LinksFacts HeapFacts TraceFacts TraceTotal Local StackBound
+  Termination Perm StdRc StdRefine Tokens InvDef InvLemmas ActBase ActHandles ActAdopt ActMove ActConsume
+  StepFrames StepPanic Purge GroupOps DropDec Group DropLast StepInv RunInv Consequences OrphanComplete Common.
 Local Open Scope N_scope.
 
-Theorem C03_trace_is_closure_partial :
-  forall h a own pops visits,
-  cycle_refs h a = Ok (own, pops, visits) ->
-  exists R,
-    NoDup R /\ (forall y, In y R <-> reach h a y) /\
-    (forall y, own_get own y = sumN (map (fun x => cntF (tbl_of h x) y) R)) /\
-    (forall y, In y (map fst own) <-> exists x, In x R /\ linked h x y) /\
-    NoDup (map fst own) /\
-    visits = N.of_nat (length R) /\
-    pops = (1 + sumN (map (fun x => N.of_nat (length (fwd_targets (tbl_of h x)))) R))%N.
-Proof. exact cycle_refs_spec. Qed.
-Print Assumptions C03_trace_is_closure_partial.
+(** nothing stays alive without a handle: an object whose last strong handle
+    disappears is destroyed in that very step (at every configuration, a live
+    object has at least one strong handle) *)
+Theorem C03_alive_implies_handle :
+  forall s k o b, Inv s k -> nth_error (heap_of s) o = Some b -> live b = true ->
+  0 < W (sw_strong o) s k.
+Proof. exact live_has_handle. Qed.
+Print Assumptions C03_alive_implies_handle.
 
+(** the last drop destroys the object now: the value moves to the destructor
+    frame and the object is dead to every observer from this step on *)
+Theorem C03_last_drop_destroys :
+  forall pri s o k b, Inv s (FDropStrong o :: k) -> getb (heap_of s) o = Ok b -> strong b = Cnt 1 ->
+  exists s1 v, drop_strong pri s o = Ok (s1, [FDtorStart v; FAfterValue o]) /\ value b = Some v /\
+    Inv s1 ([FDtorStart v; FAfterValue o] ++ k).
+Proof. exact drop_last_inv. Qed.
+Print Assumptions C03_last_drop_destroys.
+
+(** collection is synchronous: every call returns (for every heap, whatever the
+    destructors do), and its result does not depend on the fuel once it suffices *)
+Theorem C03_every_call_returns :
+  forall pri s o, exists fuel, snd (exec_op pri fuel s o) <> OFuel.
+Proof. exact exec_op_returns. Qed.
+Print Assumptions C03_every_call_returns.
+
+Theorem C03_every_run_terminates :
+  forall pri c, exists fuel, match run pri fuel c with Running _ => False | _ => True end.
+Proof. exact run_terminates. Qed.
+Print Assumptions C03_every_run_terminates.
+
+(** when a group is collected, ALL objects reachable from the dropped one
+    through recorded adoptions are destroyed together, in this step *)
+Theorem C03_collected_set_is_the_traced_set :
+  forall s k o pri cyc pops visits,
+  Inv s k -> (forall x, reach (heap_of s) o x -> disc_at (heap_of s) x) ->
+  orphaned_cycle (heap_of s) o = Ok (Some cyc, pops, visits) ->
+  let cyc' := order_cycle pri cyc in
+  let keys := map fst cyc' in
+  exists h2 h3 inners,
+    bust_all (heap_of s) keys cyc' = Ok h2 /\ gather h2 keys [] = Ok (h3, inners) /\
+    group_heap (heap_of s) h3 keys /\
+    (forall y, In y keys <-> reach (heap_of s) o y) /\
+    Inv (add_ev (set_heap (add_ev s (EvTrace o pops visits)) h3) (EvGroup keys))
+        (FInners inners :: FFinishGroup keys :: k).
+Proof. exact group_inv. Qed.
+Print Assumptions C03_collected_set_is_the_traced_set.
+
+(** completeness of the decision: if, after the decrement, every strong handle
+    to every object reachable from [o] through recorded adoptions is a recorded
+    adoption held by a member of that set (counter <= sum of the members'
+    Forward records), the drop collects exactly that set: all members are
+    destroyed (uninit marker, value and table moved to the destructor queue)
+    before the drop returns *)
+Theorem C03_orphaned_group_is_collected_by_this_drop :
+  forall pri s k o b n R,
+  Inv s (FDropStrong o :: k) -> getb (heap_of s) o = Ok b -> strong b = Cnt n -> 1 < n ->
+  disc (heap_of s) ->
+  let h1 := setb (heap_of s) o (with_strong b (Cnt (n - 1))) in
+  NoDup R -> (forall y, In y R <-> reach h1 o y) ->
+  (forall y, In y R -> exists b' m, nth_error h1 y = Some b' /\ strong b' = Cnt m /\
+      m <= sumN (map (fun x => lget h1 x (y, Fwd)) R)) ->
+  exists s1 inners keys,
+    drop_strong pri s o = Ok (s1, [FInners inners; FFinishGroup keys]) /\
+    (forall y, In y keys <-> In y R) /\
+    (forall y, In y R -> exists b', nth_error (heap_of s1) y = Some b' /\
+        strong b' = Uninit /\ value b' = None /\ links b' = None) /\
+    Inv s1 (FInners inners :: FFinishGroup keys :: k).
+Proof. exact drop_collects_orphans. Qed.
+Print Assumptions C03_orphaned_group_is_collected_by_this_drop.
+
+(** the orphan test is exact on disciplined heaps: it passes iff the traced set
+    is owned by its own recorded adoptions *)
+Theorem C03_orphan_test_exact :
+  forall s k o R,
+  Inv s k -> disc (heap_of s) -> has_table (heap_of s) o ->
+  NoDup R -> (forall y, In y R <-> reach (heap_of s) o y) ->
+  ((exists cyc pops visits, orphaned_cycle (heap_of s) o = Ok (Some cyc, pops, visits)) <->
+   (forall y, In y R -> exists b m, nth_error (heap_of s) y = Some b /\ strong b = Cnt m /\
+      m <= sumN (map (fun x => lget (heap_of s) x (y, Fwd)) R))).
+Proof. exact orphan_test_exact. Qed.
+Print Assumptions C03_orphan_test_exact.
+
+(** KNOWN FINDING D3 (not a theorem about what should hold, but a proof of what
+    the code does): a self handle recorded through the SAME handle object
+    (Loopback record) is never counted as owned by the group, so an object whose
+    only remaining handle is that one is not collected although every handle to
+    it is a recorded adoption held by itself. Witness: object 0 stores a clone
+    of its handle in its own slot 0, records it with adopt(&h, &h), and the
+    program drops its handle: afterwards no register holds anything, yet object
+    0 is still live (leaked). *)
+Definition d3_history : list (op * list oid) := map (fun a => (OAct a, @nil oid))
+  [ANew 0; AClone (HReg 0) 1; AStore 1 (OReg 0) 0; AAdopt (HSlot (OReg 0) 0) (HSlot (OReg 0) 0); ADrop 0].
+
+Theorem C03_loopback_refuted :
+  let s := fst (run_history ex_fuel init_state d3_history) in
+  hist_ok ex_fuel init_state d3_history = true /\
+  regs s = repeat REmpty NREGS /\
+  map (fun b => (strong b, links b)) (heap_of s) = [(Cnt 1, Some [((0%nat, Loop), 1)])].
+Proof. vm_compute. repeat split; reflexivity. Qed.
+Print Assumptions C03_loopback_refuted.
